@@ -191,3 +191,24 @@ Theorem check_tree_packs_transparent : forall content pre l ord post c be,
   bke (snd (run_c ops (mkst c be))) = snd (run_u ops be).
 Proof. exact check_tree_packs_transparent_lemma. Qed.
 Print Assumptions check_tree_packs_transparent.
+
+(* The commands of the property.  cmd_readers (regenerated from the command bodies: backup's
+   get_parent + to_indexed_ids, get_all_snapshots / get_snapshots + delete_snapshots for forget,
+   prune's index reading and find_used_blobs, check) lists first in every reader, except when
+   snapshots are named by full ids only (explicit parents of backup, forget <full id>). *)
+Theorem listing_commands : forall c,
+  listing_cmd c = true <-> (c <> CmdBackupParentFullIds /\ c <> CmdForgetFullIds).
+Proof. exact listing_commands_lemma. Qed.
+Print Assumptions listing_commands.
+
+(* ... hence every history of steps of backup / forget / prune / check (any variant but the
+   two full-id ones), performed by the cached handle while another handle changes the
+   repository and files appear in the cache directory between the steps, returns the same
+   results and leaves the same repository contents as without cache. *)
+Theorem command_histories_transparent : forall content h c be,
+  BeHonest content be -> CacheFaulty content c ->
+  Forall (op_honest content) (history_ops h) -> Forall cmd_item h ->
+  fst (run_c (history_ops h) (mkst c be)) = fst (run_u (history_ops h) be) /\
+  bke (snd (run_c (history_ops h) (mkst c be))) = snd (run_u (history_ops h) be).
+Proof. exact command_histories_transparent_lemma. Qed.
+Print Assumptions command_histories_transparent.
